@@ -89,7 +89,7 @@ def lake_build(log):
 
 
 AUDIT_TEMPLATE = """import Lean
-import Spp.Props.{pid}
+import Spp
 open Lean Elab Command
 run_cmd do
   let env ← getEnv
@@ -183,8 +183,10 @@ def proof_side(pid, required, log, thorough=False):
     if ok and thorough:
         # independent re-check of the compiled module by Lean's stand-alone kernel checker
         t0 = time.time()
-        p = subprocess.run(["lake", "env", "leanchecker", f"Spp.Props.{pid}"], cwd=LEAN_DIR, capture_output=True, text=True)
-        log.append(f"leanchecker Spp.Props.{pid}: rc={p.returncode} {time.time() - t0:.1f}s")
+        mods = sorted("Spp.Props." + fn[:-5] for fn in os.listdir(os.path.join(LEAN_DIR, "Spp", "Props"))
+                      if fn.startswith(pid) and fn.endswith(".lean"))
+        p = subprocess.run(["lake", "env", "leanchecker"] + mods, cwd=LEAN_DIR, capture_output=True, text=True)
+        log.append(f"leanchecker {' '.join(mods)}: rc={p.returncode} {time.time() - t0:.1f}s")
         if p.returncode != 0:
             problems.append({"kind": "leanchecker-failed", "detail": (p.stdout + p.stderr)[-2000:]})
     hits = grep_forbidden()
